@@ -1,7 +1,6 @@
 package ingestref
 
 import (
-	"bytes"
 	"context"
 	"errors"
 	"fmt"
@@ -85,7 +84,7 @@ type Output struct {
 // NeverSeen is an ICache that has never seen any key: every (day, fingerprint) is announced.
 type NeverSeen struct{}
 
-func (NeverSeen) CheckAndSet(uint64) bool                  { return false }
+func (NeverSeen) CheckAndSet(uint64) bool              { return false }
 func (NeverSeen) DB(string) numbercache.ICache[uint64] { return NeverSeen{} }
 
 // Parse feeds body to the protocol's real parser exactly as the route does and collects every response.
@@ -113,7 +112,7 @@ func (p *Proto) Parse(body []byte, o Opt, cache numbercache.ICache[uint64]) Outp
 	}
 	var out Output
 	var kept []keptChunk
-	ch := p.Parser(ctx, bytes.NewReader(body), cache)
+	ch := p.Parser(ctx, NewArrival(body, o.Reader), cache)
 	for r := range ch {
 		if r.Error != nil {
 			if out.Err == nil {
@@ -402,9 +401,9 @@ func refFP(p *Proto, labels []Label, ttl uint16) (uint64, error) {
 }
 
 type keptChunk struct {
-	c    Chunk
-	spl  *model.TimeSamplesData
-	ts   *model.TimeSeriesData
+	c   Chunk
+	spl *model.TimeSamplesData
+	ts  *model.TimeSeriesData
 }
 
 func keep(c Chunk) keptChunk {
